@@ -30,7 +30,6 @@ def rows : List Row := [
   ⟨"F03g", "AssertionError", "xpath1/_xpath1_functions.py:evaluate__ceiling_and_floor_functions", ["floor", "ceiling"], 0⟩,
   ⟨"F03g", "AssertionError", "xpath1/_xpath1_functions.py:evaluate__round", ["round"], 0⟩,
   ⟨"F03g", "AssertionError", "xpath30/_xpath30_functions.py:__call__", ["function"], 0⟩,
-  ⟨"F03g", "AssertionError", "xpath31/_xpath31_functions.py:evaluate__map_merge", ["merge"], 0⟩,
   ⟨"F03g", "AssertionError", "xpath_tokens/tokens.py:nud", ["Q{"], 0⟩,
   ⟨"F03g", "AttributeError", "collations.py:__init__", ["compare"], 0⟩,
   ⟨"F03g", "TypeError", "xpath2/_xpath2_functions.py:evaluate__years_from_duration", ["years-from-duration"], 0⟩,
@@ -41,11 +40,9 @@ def rows : List Row := [
   ⟨"F03g", "TypeError", "xpath30/xpath30_helpers.py:int_to_alphabetic", ["format-integer"], 0⟩,
   ⟨"F03g", "ValueError", "datatypes/qname.py:__init__", ["function-name", "#"], 0⟩,
   ⟨"F03g", "ElementPathKeyError", "sequence_types.py:is_instance", ["element"], 0⟩,
-  ⟨"F03g", "ValueError", "datatypes/untyped.py:__int__", ["untypedAtomic"], 0⟩,
   ⟨"F03g", "ValueError", "helpers.py:get_double", ["floor", "ceiling", "untypedAtomic"], 0⟩,
   ⟨"F03g", "ValueError", "namespaces.py:get_expanded_name", ["instance", "castable", "cast", "treat"], 0⟩,
   ⟨"F03g", "TypeError", "collations.py:__init__", ["compare"], 0⟩,
-  ⟨"F03g", "IndexError", "xpath_tokens/functions.py:validated_result", ["for-each"], 0⟩,
   ⟨"F03g", "TypeError", "serialization.py:serialize_to_xml", ["serialize"], 0⟩,
   ⟨"F03g", "AssertionError", "xpath2/_xpath2_constructors.py:evaluate__datetime_stamp_type", ["dateTimeStamp"], 0⟩,
   ⟨"F03g", "IndexError", "xpath30/xpath30_helpers.py:format_digits", ["format-integer"], 0⟩,
